@@ -146,9 +146,9 @@ CHECKS = {
         note=NOTE, technique="bounded-exhaustive enumeration of attribute token words / item kinds / pattern words through the real macro; diagnostic-channel oracle",
         ref="DESIGN.md §3 C15"),
     "C16": dict(
-        text="Every pattern word up to length 3 (quick) / 4 (thorough) over a 18-symbol pattern alphabet (plain, mut, ref, raw identifier, wildcard, "
+        text="Every pattern word up to length 3 (quick) / 4 (thorough) over a 19-symbol pattern alphabet (plain, mut, ref, raw identifier, wildcard, "
              "tuple, tuple-struct with 1 binding, with binding+wildcard, struct pattern, reference pattern, binding named like the function, bindings "
-             "named like would-be generated names argN/_argN/f_, destructuring whose binding is the function name / starts with an underscore, the function's name / a would-be generated name in the other raw-or-plain spelling) x {generic deps, no_deps, module fn, "
+             "named like would-be generated names argN/_argN/f_, destructuring whose binding is the function name / starts with an underscore, the function's name / a would-be generated name argN / the conflict-avoiding name f_ in the other raw-or-plain spelling) x {generic deps, no_deps, module fn, "
              "impl-block fn, provided method of an entraited trait (default delegation / static delegation target), required method of an entraited trait (identifiers and `_` only), macro_rules-stamped fn with the trait name as macro argument} x fn name {f, r#type, r#g, arg1} is compiled and run; the generated method's parameter list must satisfy the naming specification and "
              "the trait call must forward position-coded arguments positionally.",
         note=NOTE, technique="bounded-exhaustive enumeration of pattern lists on the real macro; specification model + executed trace",
